@@ -413,3 +413,71 @@ class FnCaseBuilder:
                 nontrivial = True
         self.meta["nontrivial"] = nontrivial
         return Case(self.cid, "\n".join(src) + "\n", meta=self.meta, tags=tags)
+
+
+def macro_case(cid, rng):
+    """An entraited fn stamped out by a `macro_rules!` macro: some identifiers (trait name, fn name, deps name,
+    some parameter names) come from the invocation, the others are written in the macro body, so they live in
+    different hygiene contexts - including parameters with the same spelling that are nevertheless distinct."""
+    n = rng.randint(2, 5)
+    pool = ["a", "b", "inner"]
+    origins = [rng.choice(["caller", "macro"]) for _ in range(n)]
+    if "macro" not in origins:
+        origins[rng.randrange(n)] = "macro"
+    if "caller" not in origins:
+        origins[rng.randrange(n)] = "caller"
+    names = []
+    used = {"caller": set(), "macro": set()}
+    for o in origins:
+        cands = [x for x in pool + ["c", "d", "e"] if x not in used[o]]
+        nm = rng.choice(cands[:3])
+        used[o].add(nm)
+        names.append(nm)
+    trait_from = rng.choice(["caller", "macro"])
+    fn_from = rng.choice(["caller", "caller", "macro"])
+    deps_from = rng.choice(["caller", "macro"])
+    is_async = rng.random() < 0.3
+    # macro matcher / transcriber
+    matcher, call_args = [], []
+    def frag(origin, name, var):
+        if origin == "caller":
+            matcher.append("$%s:ident" % var)
+            call_args.append(name)
+            return "$" + var
+        return name
+    tr = frag(trait_from, "Subj", "tr")
+    fn = frag(fn_from, "subj", "f")
+    dp = frag(deps_from, "deps", "dp")
+    ps = [frag(o, nm, "p%d" % i) for i, (o, nm) in enumerate(zip(origins, names))]
+    fid = "%s::subj" % cid
+    logs = ", ".join("&%s as &dyn ::core::fmt::Debug" % x for x in ps)
+    fmt = fid + "".join("|{:?}" for _ in ps)
+    body = '::vrt::enter("%s", ::vrt::tn(%s), ::vrt::addr(%s), &[%s]); %s::std::format!("%s"%s)' % (
+        fid, dp, dp, logs, "::vrt::yield_once().await; " if is_async else "", fmt, "".join(", " + x for x in ps))
+    L = [APP_DEF,
+         "macro_rules! make_subject {",
+         "    (%s) => {" % ", ".join(matcher),
+         "        #[::entrait::entrait(pub %s)] /*@inv*/" % tr,
+         "        pub %sfn %s<D>(%s: &D, %s) -> ::std::string::String { %s }" % ("async " if is_async else "", fn, dp, ", ".join("%s: i32" % x for x in ps), body),
+         "    };",
+         "}",
+         "make_subject!(%s);" % ", ".join(call_args)]
+    vals = ["%di32" % (101 + i) for i in range(n)]
+    wrap = (lambda c: "::vrt::block_on(%s)" % c) if is_async else (lambda c: c)
+    D = ["pub fn run() {",
+         '    let app = ::entrait::Impl::new(App { tag: 5, name: "nm_%s" });' % cid,
+         '    let plain = App { tag: 6, name: "pl" };',
+         '    ::vrt::fact("app_addr", ::vrt::addr(&app)); ::vrt::fact("app_tn", ::vrt::tn(&app)); ::vrt::fact("app_tag", ::vrt::Tag::tag(&app));',
+         '    ::vrt::fact("plain_addr", ::vrt::addr(&plain)); ::vrt::fact("plain_tn", ::vrt::tn(&plain)); ::vrt::fact("plain_tag", ::vrt::Tag::tag(&plain));',
+         '    ::vrt::phase("direct:f0_impl");',
+         '    let r = %s; ::vrt::result(&r); ::vrt::kv("rtn", ::vrt::tn(&r)); ::vrt::record_polls();' % wrap("subj(&app, %s)" % ", ".join(vals)),
+         '    ::vrt::phase("trait:f0_impl");',
+         '    let r = %s; ::vrt::result(&r); ::vrt::kv("rtn", ::vrt::tn(&r)); ::vrt::record_polls();' % wrap("app.subj(%s)" % ", ".join(vals)),
+         "}"]
+    meta = {"mode": "macro_rules", "options": [], "macro": "entrait", "nontrivial": True,
+            "calls": [{"label": "f0_impl", "fn": fid, "recv": "impl", "args": [str(101 + i) for i in range(n)], "deps_kind": "generic_ref",
+                       "deps_usable": True, "async": is_async, "nested": []}],
+            "fns": [{"name": "subj", "id": fid, "deps_kind": "generic_ref", "arity": n, "async": is_async, "unsafe": False, "extern": False,
+                     "forms": ["hygiene:" + o for o in origins], "types": ["i32"] * n, "ret": "owned",
+                     "sig": "macro_rules fn subj(%s) names=%s origins=%s trait:%s fn:%s deps:%s" % (n, names, origins, trait_from, fn_from, deps_from)}]}
+    return Case(cid, "\n".join(L + D) + "\n", meta=meta)
